@@ -82,7 +82,11 @@ def run_tex2txt(latex, o=None, multi=False, files=None, thresh=None, timeout=10,
     files = files or {}
     def fake_open(file, *a, **k):
         if isinstance(file, str) and file in files:
-            return io.StringIO(files[file])
+            v = files[file]
+            if isinstance(v, dict):
+                # a file given by its bytes: decoded as open(file, encoding=...) would (may raise UnicodeDecodeError on read)
+                return io.TextIOWrapper(io.BytesIO(bytes.fromhex(v['hex'])), encoding=k.get('encoding') or 'utf-8')
+            return io.StringIO(v)
         raise FileNotFoundError(file)
     def gtp(toks):
         if 'toks' not in cap:
